@@ -92,8 +92,16 @@ def f_depth(f) -> int:
     return 1 + max(f_depth(g) for g in f[1:])
 
 
-def f_text(f, names) -> str:
-    """concrete syntax of the repository's grammar, fully parenthesised where needed"""
+def fact_arg(f, names, form):
+    """a fact as the API accepts it: a pysmt formula or a string in the project syntax"""
+    if form == "pysmt":
+        return f_pysmt(f, names)
+    return f_text(f, names, minimal=(form == "textmin"))
+
+
+def f_text(f, names, minimal=False) -> str:
+    """concrete syntax of the repository's grammar, fully parenthesised where needed; `minimal` drops the parentheses the
+    precedence (! over , over ;) makes redundant"""
     t = f[0]
     if t == "T":
         return "Top"
@@ -103,13 +111,15 @@ def f_text(f, names) -> str:
         return names[f[1]]
     if t == "!":
         g = f[1]
-        s = f_text(g, names)
+        s = f_text(g, names, minimal)
         return "!" + (s if g[0] in ("a", "T", "F", "!") else "(" + s + ")")
     sep = "," if t == "&" else ";"
     parts = []
-    for g in f[1:]:
-        s = f_text(g, names)
-        if g[0] in ("&", "|"):
+    for i, g in enumerate(f[1:]):
+        s = f_text(g, names, minimal)
+        # minimal: ',' binds tighter than ';' (no parentheses for a conjunction inside a disjunction); both operators are
+        # parsed left-associatively, so only a *left* operand of the same kind may go without parentheses
+        if g[0] in ("&", "|") and not (minimal and ((t == "|" and g[0] == "&") or (g[0] == t and i == 0))):
             s = "(" + s + ")"
         parts.append(s)
     return sep.join(parts)
